@@ -42,6 +42,7 @@ pub fn cells(tier: Tier) -> Vec<CellPlan> {
     add(cells::vis_neighbour("C03", Vis::Blacklist), 1, 1, 2, 1.0);
     add(cells::pool_reuse("C03"), 1, 1, 4, 1.0);
     add(cells::reref("C03"), 1, 1, 2, 1.0);
+    add(cells::two_graphs_insert("C03"), 1, 1, 2, 1.0);
     v
 }
 
